@@ -70,6 +70,45 @@ PROPS["C17"] = {
     "assumptions": ["events of spawned threads are awaited through the hook's live-thread counter; their order relative to later calls is not asserted"],
 }
 
+DMG_Q = [("damage", 500), ("signing", 300), ("mixed", 300), ("chaos", 200), ("lifecycle", 150)]
+DMG_T = [("damage", 8000), ("signing", 6000), ("mixed", 5000), ("chaos", 4000), ("lifecycle", 3000), ("release", 2000)]
+PROPS["C01"] = {
+    "modules": ["C01"], "required_theorems": ["C01_holds", "next_boot_patch_sound"], "monitors": ["C01"],
+    "fields": ["ret", "pj", "pd", "sj"],
+    "campaign": camp(DMG_Q, DMG_T),
+    "assumptions": ["a forged, internally consistent patches_state.json + matching artifact is not in the property's damage list; stale files are earlier versions of the same file (StaleOK)",
+                    "`verify` = ring's RSA verdicts, supplied by the harness for every (key, hash, signature) triple used"],
+}
+PROPS["C07"] = {
+    "modules": ["C07", "C01"], "required_theorems": ["C07_signed_only", "C07_bad_key", "C07_install_requires_signature", "C01_holds"], "monitors": ["C01", "C05"],
+    "fields": ["ret", "pj", "pd", "sj"],
+    "campaign": camp([("signing", 900), ("damage", 300), ("mixed", 200)], [("signing", 15000), ("damage", 5000), ("mixed", 4000), ("chaos", 3000)]),
+    "assumptions": ["ring (RSA_PKCS1_2048_8192_SHA256) and base64 are trusted; the model's `verify` is instantiated with ring's real verdicts",
+                    "SHA-256 of the model is compared with the sha2 crate on every artifact content used (codec check, C16)"],
+}
+DL_Q = [("download", 600), ("network", 400), ("mixed", 250), ("signing", 150), ("rollback", 100)]
+DL_T = [("download", 10000), ("network", 8000), ("mixed", 4000), ("signing", 3000), ("rollback", 2000), ("chaos", 2000)]
+PROPS["C05"] = {
+    "modules": ["C05"], "required_theorems": ["C05_holds", "update_installed_sound", "installStage_failed"], "monitors": ["C05"],
+    "fields": ["ret", "net", "pj", "pd", "sj"],
+    "campaign": camp(DL_Q, DL_T),
+    "assumptions": ["zstd is not modelled: the harness hands the model the bytes the real decompressor emitted (complete or cut short)",
+                    "bipatch/integer-encoding are modelled from their pinned source; the model's decoder and SHA-256 are compared with the real crates in the codec check"],
+}
+PROPS["C06"] = {
+    "modules": ["C06", "C05"], "required_theorems": ["C06_holds", "C06_check_failed", "C06_bad_response", "C05_holds"], "monitors": ["C05", "C13"],
+    "fields": ["ret", "net", "pj", "pd", "sj"],
+    "campaign": camp([("network", 700), ("download", 400), ("mixed", 250), ("rollback", 150)], [("network", 12000), ("download", 8000), ("mixed", 4000), ("rollback", 3000), ("chaos", 2000)]),
+    "assumptions": ["reqwest / TLS / socket behaviour is runtime: the model sees only the classified result (error | ok value) of each request"],
+}
+PROPS["C20"] = {
+    "modules": ["C20"], "required_theorems": ["C20_holds"], "monitors": ["C20"],
+    "fields": ["ret", "net", "sj", "sje"],
+    "campaign": camp([("strings", 600), ("mixed", 300), ("lifecycle", 200), ("init", 200), ("chaos", 150)],
+                     [("strings", 10000), ("mixed", 5000), ("lifecycle", 4000), ("init", 3000), ("chaos", 3000)]),
+    "assumptions": ["AppConsistent: the compiled-in app id is the same at every initialisation of a history, and stale state.json files are earlier versions of the same file"],
+}
+
 # Properties whose theorems are still being written: monitors + correspondence only (not in MANIFEST).
 for _p, _mon, _camp in [
     ("C01", ["C01"], camp(LIFE_Q, LIFE_T)), ("C03", ["C03"], camp(LIFE_Q, LIFE_T)), ("C05", ["C05"], camp(LIFE_Q, LIFE_T)),
